@@ -175,7 +175,15 @@ pub fn values(rng: &mut Rng, class: ValClass, len: usize) -> Vec<f64> {
             }
         },
         ValClass::FloatConst => {
-            let c = rng.uniform(-100.0, 100.0);
+            // half of the time a small magnitude: there the rounding residue of the one-pass
+            // variance of a constant window sits between f64::EPSILON and the library's EPS floor
+            // (for |c| around 1 and short histories the a-priori bound of DESIGN 5.1 is below the floor,
+            // i.e. the floor branch is guaranteed and the result is judged)
+            let c = match rng.below(3) {
+                0 => rng.uniform(0.6, 1.4) * if rng.chance(0.5) { -1.0 } else { 1.0 },
+                1 => rng.uniform(-8.0, 8.0),
+                _ => rng.uniform(-100.0, 100.0),
+            };
             v.resize(len, c);
         },
         ValClass::FloatPlateaus => {
